@@ -10,6 +10,7 @@ guarded hooks (frame reset, recon row done, LF/CDEF/LR row begin and done-map up
 DecRowsTrace.tla (direction B)."""
 import os
 import random
+import re
 
 import vlib
 from checks import common, corpus, stream
@@ -136,17 +137,25 @@ def run(res):
             if d["rc"] != 0 or any(e["ev"] == "Timeout" for e in d["events"]):
                 res.violation("oversubscribed multi-threaded decode does not finish / crashes (rc=%s) threads=%d: %s" % (d["rc"], t, r["desc"]), d["log"][-600:],
                               key={"kind": "hang", "regime": "oversubscribed"})
-        ja = [(r, t, 0) for r in rs[:3] if r["rc"] == 0 for t in (2, 4, 8)]
+        # s = bytes the harness allocates beyond each temporal unit.  The decoder's bit reader fetches whole 32-bit words
+        # and looks one word ahead (dec_bits_init, EbDecBitstream.c), i.e. it reads past data_size for ANY thread count:
+        # with s = 0 that over-read is what ASan stops at (recorded finding); s = 64 lets the run go on to the
+        # multi-threaded parse / recon / filter jobs this property is about.
+        ja = [(r, t, 64) for r in rs[:3] if r["rc"] == 0 for t in (2, 4, 8)] + [(r, 1, 0) for r in rs[:1] if r["rc"] == 0]
 
         def deca(j):
             r, t, s = j
             c = r["case"]
             out = r["out"] + ".deca_t%d" % t
-            d = common.run_dec(r["out"] + ".pkts", out, ["--svt", "--threads", str(t), "-w", str(c["w"]), "-h", str(c["h"]), "--bits", str(c["bits"])],
-                               timeout=300, variant="asan")
-            return r, t, d
-        for r, t, d in common.parallel(deca, ja, workers=4):
-            res.case("asan threads=%d %s" % (t, r["desc"]))
+            d = common.run_dec(r["out"] + ".pkts", out, ["--svt", "--threads", str(t), "-w", str(c["w"]), "-h", str(c["h"]), "--bits", str(c["bits"]),
+                                                           "--buf-slack", str(s)], timeout=300, variant="san")
+            return r, t, s, d
+        for r, t, s, d in common.parallel(deca, ja, workers=4):
+            res.case("asan threads=%d slack=%d %s" % (t, s, r["desc"]))
             if d["rc"] != 0:
-                res.violation("sanitizer build: multi-threaded decode fails (rc=%s) threads=%d: %s" % (d["rc"], t, r["desc"]), d["log"][-2500:], key={"kind": "asan"})
+                m = re.search(r"SUMMARY: AddressSanitizer: (\S+) \S*?([A-Za-z0-9_]+\.[ch]):\d+ in (\w+)", d["log"])
+                key = {"kind": "asan", "error": m.group(1) if m else "?", "file": m.group(2) if m else "?", "func": m.group(3) if m else "?",
+                       "exact_input_buffer": s == 0}
+                res.violation("sanitizer build: decode fails (rc=%s, %s in %s) threads=%d input-buffer slack=%d: %s"
+                              % (d["rc"], key["error"], key["func"], t, s, r["desc"]), d["log"][-2500:], key=key)
     corpus.cleanup(rs)
